@@ -13,6 +13,9 @@
 //	   (Bytes(k) | Bytes(k+1) Unwrite(1) | U8 Bytes(k-1); for the 64K sizes the last
 //	   two only on single-level chains) x 4 sibling layouts,
 //	C  AddASN1 with every identifier octet 0..255 x content sizes {0,127,128},
+//	E  the chains of B (depth <= 2, thorough 3) around 18 content sizes on either side of
+//	   bit 7 / bit 15 of the length and with zero / all-one low octets away from the
+//	   2^8 / 2^16 boundaries (0x1ff..0x201, 0x7ffe..0x8001, 0xff00, 0x10100, 0x20000 ...),
 //	Q24 (both tiers) 14 fixed programs at the 2^24 boundary: content 2^24-1, 2^24,
 //	   2^24+5 under a 24-bit prefix, a 32-bit prefix, AddASN1, and a 24-bit prefix
 //	   nested in a 32-bit prefix; a 24-bit prefix around an ASN.1 element of total
@@ -26,6 +29,12 @@
 // nothing. Every program that yields bytes is then run on NewFixedBuilder for
 // every capacity class (for each append of the program: the capacity at which
 // exactly that append is the first one not to fit; plus exact fit and one spare).
+//
+// Hardening dimensions on every run: AddBytes gets a private copy (sentinels in its spare
+// capacity) that is wiped when the call returns; String reads go into pre-loaded
+// destinations, are repeated through Skip/ReadBytes, and on the output cut by one byte
+// must fail without panicking; Bytes() is a pure query (asked between top-level
+// operations, twice at the end, and through BytesOrPanic).
 package main
 
 import (
@@ -668,7 +677,7 @@ func (k *checker) check(family string, prog []*cbref.Op, trackState, full bool, 
 	m2 := cbref.Run(prog, k.vals, growPrefix)
 	ib := make([]byte, len(growPrefix), len(growPrefix)+3)
 	copy(ib, growPrefix)
-	copy(ib[len(ib):cap(ib)], "\xEE\xEE\xEE") // old contents in the spare capacity
+	copy(ib[len(ib):cap(ib)], "\xEE\xEE\xEE")                    // old contents in the spare capacity
 	r2 := runReal(prog, k.vals, cryptobyte.NewBuilder(ib), true) // and Bytes() queried between top-level operations
 	st.traces++
 	st.transitions += r2.ops
@@ -946,7 +955,11 @@ func run(c *vf.Ctx) {
 	c.Rule("programs: (A) every forest of <=T Builder operations over the 24-leaf/7-node alphabet, (B) every chain of nested length-prefix kinds x every content size " +
 		"within [-14,+1] of 128/256/65536 (thorough 2^24) x 3 content layouts x 4 sibling layouts, (C) every ASN.1 identifier octet; each on a zero Builder, a reallocating NewBuilder " +
 		"and every fixed-size capacity class; state = distinct (length, hash) of the produced encoding or distinct error; non-trivial = distinct (outcome, nesting depth>=2, op-kind set); " +
-		"oracle = reference encoder verif/ref/cbref (error/panic/bytes, byte-for-byte) + mirrored cryptobyte.String reads consuming everything")
+		"oracle = reference encoder verif/ref/cbref (error/panic/bytes, byte-for-byte) + mirrored cryptobyte.String reads consuming everything; " +
+		"hardening dimensions: (A) every AddBytes argument is a private copy with sentinel bytes in its spare capacity, wiped right after the call; (B) every String read goes into a destination pre-loaded with a non-zero value of another length, " +
+		"NewBuilder's spare capacity holds old bytes; (D) Bytes() is queried between the top-level operations (NewBuilder run and every second fixed capacity), asked twice at the end and compared with BytesOrPanic; " +
+		"the mirrored reads are repeated through Skip/ReadBytes and on the output cut by one byte (must fail, must not panic); (E) family E: chains of depth <=2 (thorough 3) around content sizes " +
+		"0x1ff..0x201, 0x7ffe..0x8001, 0x80ff/0x8100, 0xfeff..0xff01, 0x100ff/0x10100, 0x17fff/0x18000, 0x1ffff/0x20000")
 	c.Assume("values come from a fixed alphabet (one distinct integer/byte pattern per operation position, byte pool seeded); length-prefix overflow of 32-bit prefixes and ASN.1 lengths >= 2^32 are out of reach")
 	c.Assume("de-facto behaviour: a builder that carries an error does not invoke continuations of later length-prefixed adds; AddValue always calls Marshal")
 	c.Assume("misuse that the documentation answers with a panic (Unwrite beyond the builder's own content, writing to a builder whose child is pending) counts as detected when it panics with a cryptobyte message or yields an error")
